@@ -2,7 +2,7 @@
    intact. Statements only; proofs are in Proofs/Store*.v; the model is
    Schema/StoreModel.v, the vocabulary Spec/StoreSpec.v. *)
 From PyGql Require Import Spec.StoreSpec Proofs.StoreProofs Proofs.StoreHeal Proofs.StoreLoop
-     Proofs.StoreFrame Proofs.StoreClone Proofs.StoreOps.
+     Proofs.StoreFrame Proofs.StoreClone Proofs.StoreOps Proofs.StoreTerm.
 Local Open Scope N_scope.
 
 (* Schema(query, mutation, subscription, directives, types): whenever the
@@ -128,13 +128,17 @@ Definition C14_repeatable_full : Prop :=
     transform fuel v m s = Ok (ma, ra) -> transform fuel v m' s = Ok (mb, rb) ->
     observe mb (touch_poss mb rb) = observe ma (touch_poss ma ra).
 
-(* full statement (not proved): the healing loop terminates. The measure is
-   the number of fields, arguments and input fields reachable from the
-   registry (a type is rebuilt only when one of them was dropped); the number
-   of stale references is not monotone. *)
-Definition C14_heal_terminates_full : Prop :=
-  forall m s, fresh_ok m -> wf_schema m s ->
-    exists fuel, forall fuel', (fuel <= fuel')%nat -> fix_type_references fuel' m s <> OutOfFuel.
+(* The healing loop "recursive calls until no type needs to be updated"
+   terminates: any fuel above the measure [mu] -- the number of fields, input
+   fields and field arguments held by the registered types -- suffices. (The
+   number of stale references is not a measure: it grows again whenever a
+   rebuilt type is registered.) [grounded]: the registered types and their
+   members exist in the heap. *)
+Theorem C14_heal_terminates : forall fuel m s,
+  fresh_ok m -> wf_reg m (s_types s) -> grounded m (s_types s) ->
+  (mu m (s_types s) < fuel)%nat -> fix_type_references fuel m s <> OutOfFuel.
+Proof. exact fix_type_references_terminates. Qed.
+Print Assumptions C14_heal_terminates.
 
 (* ------------------------------------------------------------ non-vacuity *)
 Local Open Scope string_scope.
@@ -200,4 +204,26 @@ Proof.
         unfold type_typed, field_typed, leaf, mget; simpl; repeat constructor.
     + intros n d [].
   - intros e He. simpl. simpl in He. intuition.
+Qed.
+
+(* the hypotheses of C14_heal_terminates are satisfiable *)
+Example C14_example_terminates :
+  exists s, build 50 ex_mem (Some 10) None None [] [] = Ok s /\
+            wf_reg ex_mem (s_types s) /\ grounded ex_mem (s_types s) /\
+            mu ex_mem (s_types s) = 3%nat /\ fix_type_references 4 ex_mem s <> OutOfFuel.
+Proof.
+  destruct C14_example_wf as (s & Hb & Hf & _ & _ & Hwf & _).
+  exists s. split; [exact Hb|].
+  assert (Hreg : wf_reg ex_mem (s_types s)) by (split; [exact (wf_keys _ _ Hwf)|exact (wf_names _ _ Hwf)]).
+  split; [exact Hreg|].
+  vm_compute in Hb. inversion Hb; subst s; clear Hb.
+  assert (Hg : grounded ex_mem
+                 (s_types (MkSchema (builtin_types ++ [(str_of_string "Query", 10%N); (str_of_string "E", 14%N)])%list
+                                    [] (Some 10%N) None None [] []))).
+  { intros n o Hin. simpl in Hin.
+    repeat (destruct Hin as [Heq|Hin]; [inversion Heq; subst; unfold grounded_t, mget; simpl;
+                                         repeat constructor; unfold exists_in, mget; simpl; discriminate|]).
+    destruct Hin. }
+  split; [exact Hg|]. split; [vm_compute; reflexivity|].
+  apply C14_heal_terminates; auto.
 Qed.
